@@ -11,6 +11,21 @@ import (
 var u32 = binary.BigEndian.Uint32
 var u64 = binary.BigEndian.Uint64
 
+// A record need not have every field: the admin API writes only the fields a request
+// mentions. Fields that were never written read as zero.
+func bToI64(b []byte) int64 {
+	if len(b) < 8 {
+		return 0
+	}
+	return int64(u64(b))
+}
+func bToI32(b []byte) int32 {
+	if len(b) < 4 {
+		return 0
+	}
+	return int32(u32(b))
+}
+
 func i64ToB(value int64) []byte {
 	oct := make([]byte, 8)
 	binary.BigEndian.PutUint64(oct, uint64(value))
@@ -49,11 +64,11 @@ func (manager *localManager) AuthenticateUser(UID []byte) (int64, int64, error) 
 		if bucket == nil {
 			return ErrUserNotFound
 		}
-		upRate = int64(u64(bucket.Get([]byte("UpRate"))))
-		downRate = int64(u64(bucket.Get([]byte("DownRate"))))
-		upCredit = int64(u64(bucket.Get([]byte("UpCredit"))))
-		downCredit = int64(u64(bucket.Get([]byte("DownCredit"))))
-		expiryTime = int64(u64(bucket.Get([]byte("ExpiryTime"))))
+		upRate = bToI64(bucket.Get([]byte("UpRate")))
+		downRate = bToI64(bucket.Get([]byte("DownRate")))
+		upCredit = bToI64(bucket.Get([]byte("UpCredit")))
+		downCredit = bToI64(bucket.Get([]byte("DownCredit")))
+		expiryTime = bToI64(bucket.Get([]byte("ExpiryTime")))
 		return nil
 	})
 	if err != nil {
@@ -84,10 +99,10 @@ func (manager *localManager) AuthoriseNewSession(UID []byte, ainfo Authorisation
 		if bucket == nil {
 			return ErrUserNotFound
 		}
-		sessionsCap = int(u32(bucket.Get([]byte("SessionsCap"))))
-		upCredit = int64(u64(bucket.Get([]byte("UpCredit"))))
-		downCredit = int64(u64(bucket.Get([]byte("DownCredit"))))
-		expiryTime = int64(u64(bucket.Get([]byte("ExpiryTime"))))
+		sessionsCap = int(uint32(bToI32(bucket.Get([]byte("SessionsCap")))))
+		upCredit = bToI64(bucket.Get([]byte("UpCredit")))
+		downCredit = bToI64(bucket.Get([]byte("DownCredit")))
+		expiryTime = bToI64(bucket.Get([]byte("ExpiryTime")))
 		return nil
 	})
 	if err != nil {
@@ -131,7 +146,7 @@ func (manager *localManager) UploadStatus(uploads []StatusUpdate) ([]StatusRespo
 				continue
 			}
 
-			oldUp := int64(u64(bucket.Get([]byte("UpCredit"))))
+			oldUp := bToI64(bucket.Get([]byte("UpCredit")))
 			newUp := oldUp - status.UpUsage
 			if newUp <= 0 {
 				resp = StatusResponse{
@@ -146,7 +161,7 @@ func (manager *localManager) UploadStatus(uploads []StatusUpdate) ([]StatusRespo
 				log.Error(err)
 			}
 
-			oldDown := int64(u64(bucket.Get([]byte("DownCredit"))))
+			oldDown := bToI64(bucket.Get([]byte("DownCredit")))
 			newDown := oldDown - status.DownUsage
 			if newDown <= 0 {
 				resp = StatusResponse{
@@ -161,7 +176,7 @@ func (manager *localManager) UploadStatus(uploads []StatusUpdate) ([]StatusRespo
 				log.Error(err)
 			}
 
-			expiry := int64(u64(bucket.Get([]byte("ExpiryTime"))))
+			expiry := bToI64(bucket.Get([]byte("ExpiryTime")))
 			if manager.world.Now().Unix() > expiry {
 				resp = StatusResponse{
 					status.UID,
@@ -181,12 +196,12 @@ func (manager *localManager) ListAllUsers() (infos []UserInfo, err error) {
 		err = tx.ForEach(func(UID []byte, bucket *bolt.Bucket) error {
 			var uinfo UserInfo
 			uinfo.UID = UID
-			uinfo.SessionsCap = JustInt32(int32(u32(bucket.Get([]byte("SessionsCap")))))
-			uinfo.UpRate = JustInt64(int64(u64(bucket.Get([]byte("UpRate")))))
-			uinfo.DownRate = JustInt64(int64(u64(bucket.Get([]byte("DownRate")))))
-			uinfo.UpCredit = JustInt64(int64(u64(bucket.Get([]byte("UpCredit")))))
-			uinfo.DownCredit = JustInt64(int64(u64(bucket.Get([]byte("DownCredit")))))
-			uinfo.ExpiryTime = JustInt64(int64(u64(bucket.Get([]byte("ExpiryTime")))))
+			uinfo.SessionsCap = JustInt32(bToI32(bucket.Get([]byte("SessionsCap"))))
+			uinfo.UpRate = JustInt64(bToI64(bucket.Get([]byte("UpRate"))))
+			uinfo.DownRate = JustInt64(bToI64(bucket.Get([]byte("DownRate"))))
+			uinfo.UpCredit = JustInt64(bToI64(bucket.Get([]byte("UpCredit"))))
+			uinfo.DownCredit = JustInt64(bToI64(bucket.Get([]byte("DownCredit"))))
+			uinfo.ExpiryTime = JustInt64(bToI64(bucket.Get([]byte("ExpiryTime"))))
 			infos = append(infos, uinfo)
 			return nil
 		})
@@ -205,12 +220,12 @@ func (manager *localManager) GetUserInfo(UID []byte) (uinfo UserInfo, err error)
 			return ErrUserNotFound
 		}
 		uinfo.UID = UID
-		uinfo.SessionsCap = JustInt32(int32(u32(bucket.Get([]byte("SessionsCap")))))
-		uinfo.UpRate = JustInt64(int64(u64(bucket.Get([]byte("UpRate")))))
-		uinfo.DownRate = JustInt64(int64(u64(bucket.Get([]byte("DownRate")))))
-		uinfo.UpCredit = JustInt64(int64(u64(bucket.Get([]byte("UpCredit")))))
-		uinfo.DownCredit = JustInt64(int64(u64(bucket.Get([]byte("DownCredit")))))
-		uinfo.ExpiryTime = JustInt64(int64(u64(bucket.Get([]byte("ExpiryTime")))))
+		uinfo.SessionsCap = JustInt32(bToI32(bucket.Get([]byte("SessionsCap"))))
+		uinfo.UpRate = JustInt64(bToI64(bucket.Get([]byte("UpRate"))))
+		uinfo.DownRate = JustInt64(bToI64(bucket.Get([]byte("DownRate"))))
+		uinfo.UpCredit = JustInt64(bToI64(bucket.Get([]byte("UpCredit"))))
+		uinfo.DownCredit = JustInt64(bToI64(bucket.Get([]byte("DownCredit"))))
+		uinfo.ExpiryTime = JustInt64(bToI64(bucket.Get([]byte("ExpiryTime"))))
 		return nil
 	})
 	return
